@@ -18,7 +18,11 @@ func genConcOp(rng *rand.Rand, kind string, nthreads, ncalls int, pClose, pOpen 
 			case x < pClose:
 				calls = append(calls, "c")
 			case x < pClose+pOpen && kind != "s":
-				calls = append(calls, "o")
+				if rng.Intn(3) == 0 {
+					calls = append(calls, "x") // a Connect that fails
+				} else {
+					calls = append(calls, "o")
+				}
 			default:
 				calls = append(calls, fmt.Sprintf("d%d", t*100+j+1))
 			}
